@@ -162,3 +162,10 @@ Proof.
   destruct (assocb (env_key upper i (B "OWNER")) env); reflexivity.
 Qed.
 End EnvSrc.
+
+(* ---- sqlite.py ------------------------------------------------------------------------------------------------------ *)
+Theorem sqlite_src_eq : forall rows i, Sqlite_get_authkey rows i = sql_get rows i.
+Proof.
+  intros rows i. unfold Sqlite_get_authkey. induction rows as [|r t IH]; [reflexivity|].
+  cbn [sql_select_where_ident_eq sql_get]. destruct (bytes_eqb (s_ident r) i); [reflexivity|exact IH].
+Qed.
